@@ -17,6 +17,7 @@ import QEProofs.Lemmas.C05Complete
 import QEProofs.Lemmas.C05Enum
 import QEProofs.Lemmas.C05Gauss
 import QEProofs.Lemmas.C05Example
+import QEProofs.Lemmas.C05VeComplete
 namespace QE.C05
 open QE QE.MatAlg Finset
 
@@ -186,16 +187,17 @@ example : (supportEnum solveChecked 3 2 (fnOfMat [[3, 3], [2, 5], [0, 6]])
     (fnOfMat [[3, 2, 3], [2, 6, 1]]) : List ((List ℕ × List ℕ) × ((ℕ → ℚ) × (ℕ → ℚ)))).length = 3 := by
   decide +kernel
 
-/-- **support_enumeration is complete on the property's domain** (`m, n ≤ 5`, T2): an
+/-- **support_enumeration is complete** (all `m`, `n`; T2): an
     equilibrium `(x, y)` whose supports `s0`, `s1` (as increasing lists) have the same size and
     whose two indifference systems have at most one solution — both are consequences of
     non-degeneracy — is in the output, for its own pair of supports, with exactly its
     probabilities. `solve` is any sound solver that does not fail on uniquely solvable systems.
-    With `supportPairs_nodup_small` (no support pair is visited twice) it is there exactly once.
-    The bound `5` enters only through the finite check that the `next_k_array` walk visits every
-    `k`-subset (`kSubsets_complete_small`). -/
+    With `support_enum_once` (no support pair is visited twice) it is there exactly once.
+    That the `next_k_array` walk visits every `k`-subset exactly once, for all `n` and `k`
+    (`kSubsets_complete`, `supportPairs_nodup`), comes from C16's theorems on the walk
+    (`walk_enumerates`, `walk_range_spec`, `walk_range_injective`). -/
 theorem support_enum_complete (solve : M K → M K → Option (M K)) (hs : SolveSound solve)
-    (hr : SolveRegular solve) (m n : ℕ) (hm : m ≤ 5) (hn : n ≤ 5) (A B : ℕ → ℕ → K) (x y : ℕ → K)
+    (hr : SolveRegular solve) (m n : ℕ) (A B : ℕ → ℕ → K) (x y : ℕ → K)
     (hN : IsNash m n A B x y) (s0 s1 : List ℕ)
     (h0s : s0.Pairwise (· < ·)) (h1s : s1.Pairwise (· < ·))
     (h0 : ∀ i, i ∈ s0 ↔ i < m ∧ x i ≠ 0) (h1 : ∀ j, j ∈ s1 ↔ j < n ∧ y j ≠ 0)
@@ -233,8 +235,8 @@ theorem support_enum_complete (solve : M K → M K → Option (M K)) (hs : Solve
   have htp : tryPair solve m n A B s0 s1 = some (scatter s0 zx, scatter s1 zy) := by
     unfold tryPair; rw [hzy]; dsimp only; rw [hzx]
   -- the pair of supports is visited
-  obtain ⟨hm0, hle0⟩ := mem_kSubsets_small m hm s0 h0s b0 hk
-  obtain ⟨hm1, hle1⟩ := mem_kSubsets_small n hn s1 h1s b1 (by omega)
+  obtain ⟨hm0, hle0⟩ := mem_kSubsets m s0 h0s b0 hk
+  obtain ⟨hm1, hle1⟩ := mem_kSubsets n s1 h1s b1 (by omega)
   have hpair : (s0, s1) ∈ supportPairs m n := by
     unfold supportPairs
     rw [List.mem_flatMap]
@@ -259,7 +261,7 @@ theorem support_enum_complete (solve : M K → M K → Option (M K)) (hs : Solve
 /-- **completeness, as executed by the driver** (no hypothesis on the solver left): with the
     exact residual-checked Gauss-Jordan solver, whose soundness and regularity are proved
     (`solveChecked_sound`, `solveChecked_regular`). -/
-theorem support_enum_complete_exact (m n : ℕ) (hm : m ≤ 5) (hn : n ≤ 5) (A B : ℕ → ℕ → K)
+theorem support_enum_complete_exact (m n : ℕ) (A B : ℕ → ℕ → K)
     (x y : ℕ → K) (hN : IsNash m n A B x y) (s0 s1 : List ℕ)
     (h0s : s0.Pairwise (· < ·)) (h1s : s1.Pairwise (· < ·))
     (h0 : ∀ i, i ∈ s0 ↔ i < m ∧ x i ≠ 0) (h1 : ∀ j, j ∈ s1 ↔ j < n ∧ y j ≠ 0)
@@ -270,20 +272,20 @@ theorem support_enum_complete_exact (m n : ℕ) (hm : m ≤ 5) (hn : n ≤ 5) (A
       Solves (indiffSys B s1 s0) (indiffRhs s1.length) z'' → ∀ t, t < s1.length + 1 → z' t = z'' t) :
     ∃ e, e ∈ supportEnum solveChecked m n A B ∧ e.1 = (s0, s1) ∧
       (∀ i, i < m → e.2.1 i = x i) ∧ (∀ j, j < n → e.2.2 j = y j) :=
-  support_enum_complete solveChecked solveChecked_sound solveChecked_isRegular m n hm hn A B x y hN
+  support_enum_complete solveChecked solveChecked_sound solveChecked_isRegular m n A B x y hN
     s0 s1 h0s h1s h0 h1 hlen hu0 hu1
 
 /-- non-vacuity of `support_enum_complete_exact`: the mixed equilibrium of the 2×2
     coordination game satisfies every hypothesis -/
 example : ∃ e, e ∈ supportEnum solveChecked 2 2 exA exA ∧ e.1 = ([0, 1], [0, 1]) ∧
     (∀ i, i < 2 → e.2.1 i = exx i) ∧ (∀ j, j < 2 → e.2.2 j = exx j) :=
-  support_enum_complete_exact 2 2 (by omega) (by omega) exA exA exx exx (by unfold IsNash IsProb; decide +kernel)
+  support_enum_complete_exact 2 2 exA exA exx exx (by unfold IsNash IsProb; decide +kernel)
     [0, 1] [0, 1] (by decide) (by decide) ex_supp ex_supp rfl ex_uniq ex_uniq
 
 
-/-- … exactly once: the loops never visit a pair of supports twice (`m, n ≤ 5`), so the output
-    of `supportEnum` has no two entries with the same supports -/
-theorem support_enum_once (solve : M K → M K → Option (M K)) (m n : ℕ) (hm : m ≤ 5) (hn : n ≤ 5)
+/-- … exactly once: the loops never visit a pair of supports twice (all `m`, `n`), so the
+    output of `supportEnum` has no two entries with the same supports -/
+theorem support_enum_once (solve : M K → M K → Option (M K)) (m n : ℕ)
     (A B : ℕ → ℕ → K) : ((supportEnum solve m n A B).map (·.1)).Nodup := by
   have hsub : ((supportEnum solve m n A B).map (·.1)).Sublist (supportPairs m n) := by
     unfold supportEnum
@@ -295,7 +297,7 @@ theorem support_enum_once (solve : M K → M K → Option (M K)) (m n : ℕ) (hm
       cases htp : tryPair solve m n A B p.1 p.2 with
       | none => simp only [Option.map_none]; exact ih.cons p
       | some xy => simp only [Option.map_some, List.map_cons]; exact ih.cons_cons p
-  exact hsub.nodup (supportPairs_nodup_small m hm n hn)
+  exact hsub.nodup (supportPairs_nodup m n)
 
 /-! ## completely labelled pairs, vertex enumeration -/
 
@@ -344,6 +346,133 @@ theorem ve_sound (m n : ℕ) (A B A' B' : ℕ → ℕ → K) (s r : ℕ → K)
   apply nash_shift m n A B A' B' s r _ _ hA hB
   exact veMixedActions_nash m n A' B' _ _ _ _ t0 t1 hxor hnz
     (h0 ij.1 (by simpa using hi)) (h1 ij.2 (by simpa using hj))
+
+/-- **vertex_enumeration is complete, given Qhull returns the vertices** (all `m`, `n`; T2).
+    Let `(x, y)` be a Nash equilibrium of `(A, B)`, `(A', B')` the shifted matrices of
+    `_BestResponsePolytope`, `u`, `v` the equilibrium payoffs there. Hypotheses:
+    * non-degeneracy at this equilibrium: no label is binding for both points (`hnd`);
+    * Qhull's list for `P` contains, at some index `i`, a vertex whose raw coordinates are a
+      non-zero multiple of `x` and whose labelling is exactly the set of binding labels of `x`
+      (`hr0`, `hm0`, `hh0`); likewise index `j` for `Q` and `y`; and no other vertex of `Q` carries
+      the same labelling (`hinj`).
+    Then the pair `(x, y)` itself is in the output of `vertexEnum` (matching with skip of the
+    zero vertex and `break`, read-out and normalisation included). -/
+theorem ve_complete (m n : ℕ) (A B A' B' : ℕ → ℕ → K) (s r : ℕ → K)
+    (hA : ∀ i j, A' i j = A i j + s j) (hB : ∀ j i, B' j i = B j i + r i)
+    (x y : ℕ → K) (hN : IsNash m n A B x y)
+    (lab0 lab1 : List (List ℕ)) (eqs0 eqs1 : List (List K)) (t0 t1 : K)
+    (hnd : ∀ k, k < m + n →
+      ¬ (LabX m B' x (dotTo n y (payoffVec m B' x)) k ∧ LabY m n A' y (dotTo m x (payoffVec n A' y)) k))
+    (i : ℕ) (hi : i < lab0.length) (c0 : K) (hc0 : c0 ≠ 0)
+    (hr0 : ∀ t, t < m → rawCoord (eqs0.getD i []) t0 m t = c0 * x t)
+    (hm0 : ∀ k, k < m + n → (((lab0.map intsToBits).getD i 0).testBit k = true ↔
+      LabX m B' x (dotTo n y (payoffVec m B' x)) k))
+    (hh0 : (lab0.map intsToBits).getD i 0 < 2 ^ (m + n))
+    (j : ℕ) (hj : j < lab1.length) (c1 : K) (hc1 : c1 ≠ 0)
+    (hr1 : ∀ t, t < n → rawCoord (eqs1.getD j []) t1 n t = c1 * y t)
+    (hm1 : ∀ k, k < m + n → (((lab1.map intsToBits).getD j 0).testBit k = true ↔
+      LabY m n A' y (dotTo m x (payoffVec n A' y)) k))
+    (hh1 : (lab1.map intsToBits).getD j 0 < 2 ^ (m + n))
+    (hinj : ∀ j', j' < lab1.length →
+      (lab1.map intsToBits).getD j' 0 = (lab1.map intsToBits).getD j 0 → j' = j) :
+    ∃ e, e ∈ vertexEnum m n lab0 lab1 eqs0 eqs1 t0 t1 ∧
+      (∀ t, t < m → e.1.getD t 0 = x t) ∧ (∀ t, t < n → e.2.getD t 0 = y t) := by
+  -- the equilibrium of the shifted game
+  have hN' : IsNash m n A' B' x y :=
+    nash_shift' m n A' B' A B (fun j => - s j) (fun i => - r i) x y
+      (fun i j => by rw [hA]; ring) (fun j i => by rw [hB]; ring) hN
+  obtain ⟨hx, hy, hAle, hBle⟩ := hN'
+  -- every label is binding for at least one of the two points
+  have hone : ∀ k, k < m + n → LabX m B' x (dotTo n y (payoffVec m B' x)) k ∨
+      LabY m n A' y (dotTo m x (payoffVec n A' y)) k := by
+    intro k hk
+    by_cases hkm : k < m
+    · by_cases h0 : x k = 0
+      · exact Or.inl (Or.inl ⟨hkm, h0⟩)
+      · exact Or.inr (Or.inl ⟨hkm, nash_support_eq m x _ hx hAle k hkm h0⟩)
+    · by_cases h0 : y (k - m) = 0
+      · exact Or.inr (Or.inr ⟨by omega, h0⟩)
+      · exact Or.inl (Or.inr ⟨by omega, nash_support_eq n y _ hy hBle (k - m) (by omega) h0⟩)
+  -- so the two masks are complementary
+  have hcomp : ∀ k, k < m + n → ((lab0.map intsToBits).getD i 0).testBit k
+      = !((lab1.map intsToBits).getD j 0).testBit k := by
+    intro k hk
+    by_cases hX : LabX m B' x (dotTo n y (payoffVec m B' x)) k
+    · have hb0 := (hm0 k hk).mpr hX
+      have hY : ¬ LabY m n A' y (dotTo m x (payoffVec n A' y)) k := fun h => hnd k hk ⟨hX, h⟩
+      have hb1 : ((lab1.map intsToBits).getD j 0).testBit k = false := by
+        rw [Bool.eq_false_iff]; exact fun h => hY ((hm1 k hk).mp h)
+      rw [hb0, hb1]; rfl
+    · have hb0 : ((lab0.map intsToBits).getD i 0).testBit k = false := by
+        rw [Bool.eq_false_iff]; exact fun h => hX ((hm0 k hk).mp h)
+      have hY := (hone k hk).resolve_left hX
+      rw [hb0, (hm1 k hk).mpr hY]; rfl
+  have hxor := xor_eq_complete (m + n) _ _ hh0 hh1 hcomp
+  -- `x` is not the zero vertex
+  have hnz : (lab0.map intsToBits).getD i 0 ≠ 2 ^ m - 1 := by
+    intro he
+    have hsum : ∑ t ∈ range m, x t ≠ 0 := by
+      have := hx.2; rw [sumRange_eq_sum] at this; rw [this]; exact one_ne_zero
+    obtain ⟨t, ht, hne⟩ := exists_ne_zero_of_sum_ne_zero hsum
+    have ht' := mem_range.mp ht
+    have hbit : ((lab0.map intsToBits).getD i 0).testBit t = true := by
+      rw [he, Nat.testBit_two_pow_sub_one]; simpa using ht'
+    rcases (hm0 t (by omega)).mp hbit with ⟨_, h0⟩ | ⟨hge, _⟩
+    · exact hne h0
+    · omega
+  have hmatch := veMatch_complete m n (lab0.map intsToBits) (lab1.map intsToBits) i j
+    (by simpa using hi) (by simpa using hj) hnz hxor
+    (fun j' hj' h => hinj j' (by simpa using hj') h)
+  refine ⟨veMixedActions m n ((lab0.map intsToBits).getD i 0) (eqs0.getD i []) (eqs1.getD j []) t0 t1,
+    ?_, ?_⟩
+  · unfold vertexEnum
+    dsimp only
+    rw [List.mem_map]
+    exact ⟨(i, j), hmatch, rfl⟩
+  · apply veMixedActions_eq m n _ _ _ t0 t1 x y c0 c1 hc0 hc1 hx hy hr0 hr1
+    · intro t ht
+      rw [hm0 t (by omega)]
+      constructor
+      · rintro (⟨_, h0⟩ | ⟨hge, _⟩)
+        · exact h0
+        · omega
+      · intro h0; exact Or.inl ⟨ht, h0⟩
+    · intro t ht
+      have hc := hcomp (m + t) (by omega)
+      have hiff : ((lab0.map intsToBits).getD i 0).testBit (m + t) = false ↔
+          ((lab1.map intsToBits).getD j 0).testBit (m + t) = true := by
+        rw [hc]; cases ((lab1.map intsToBits).getD j 0).testBit (m + t) <;> decide
+      rw [hiff, hm1 (m + t) (by omega)]
+      constructor
+      · rintro (⟨hlt, _⟩ | ⟨_, h0⟩)
+        · omega
+        · have : m + t - m = t := by omega
+          rwa [this] at h0
+      · intro h0
+        refine Or.inr ⟨by omega, ?_⟩
+        have : m + t - m = t := by omega
+        rw [this]; exact h0
+
+/-- … at most once per vertex of `P`: the `break` makes every vertex of the first list
+    contribute at most one pair, so with a duplicate-free vertex list no equilibrium is yielded
+    twice -/
+theorem ve_once (m n : ℕ) (bits0 bits1 : List ℕ) : ((veMatch m n bits0 bits1).map (·.1)).Nodup :=
+  veMatch_fst_nodup m n bits0 bits1
+
+/-- non-vacuity of `ve_complete`: the 1×1 game with payoffs 1 (vertices `0` and `1` of
+    `P = Q = [0,1]`, labellings `{0},{1}` and `{1},{0}`) -/
+example : ∃ e, e ∈ vertexEnum 1 1 [[0], [1]] [[1], [0]] [[0, 0], [1, 0]] [[0, 0], [1, 0]] (1 : ℚ) 1 ∧
+    (∀ t, t < 1 → e.1.getD t 0 = (fun _ => (1 : ℚ)) t) ∧ (∀ t, t < 1 → e.2.getD t 0 = (fun _ => (1 : ℚ)) t) :=
+  ve_complete 1 1 (fun _ _ => 1) (fun _ _ => 1) (fun _ _ => 1) (fun _ _ => 1) (fun _ => 0) (fun _ => 0)
+    (by intro _ _; norm_num) (by intro _ _; norm_num) (fun _ => 1) (fun _ => 1)
+    (by unfold IsNash IsProb; decide +kernel)
+    [[0], [1]] [[1], [0]] [[0, 0], [1, 0]] [[0, 0], [1, 0]] 1 1
+    (by unfold LabX LabY; decide +kernel)
+    1 (by decide) 1 one_ne_zero (by unfold rawCoord; decide +kernel)
+    (by unfold LabX; decide +kernel) (by decide)
+    1 (by decide) 1 one_ne_zero (by unfold rawCoord; decide +kernel)
+    (by unfold LabY; decide +kernel) (by decide)
+    (by decide)
 
 /-- non-vacuity of the hypotheses of `ve_sound`: the 1×1 game with payoffs 1, polytopes
     `P = Q = [0, 1]`, vertices `0` (labelled by its own non-negativity constraint) and `1`
